@@ -69,6 +69,7 @@ func (e *Env) resolveAnchors(body *ast.BlockStmt) {
 	texts := map[string]int{}
 	shapes := map[string][]string{}
 	heads := map[string][]string{}
+	inits := map[string][]string{}
 	ast.Inspect(body, func(n ast.Node) bool {
 		st, ok := n.(ast.Stmt)
 		if !ok {
@@ -82,6 +83,9 @@ func (e *Env) resolveAnchors(body *ast.BlockStmt) {
 		texts[t]++
 		switch st.(type) {
 		case *ast.IfStmt, *ast.ForStmt, *ast.RangeStmt, *ast.SwitchStmt, *ast.TypeSwitchStmt:
+			if k := e.initKey(st); k != "" {
+				inits[k] = append(inits[k], t)
+			}
 			return true // compound statements are anchored by their header only
 		}
 		if sh := stmtShape(st); sh != "" {
@@ -104,7 +108,30 @@ func (e *Env) resolveAnchors(body *ast.BlockStmt) {
 			continue
 		}
 		f, err := parser.ParseFile(token.NewFileSet(), "", "package p\nfunc _() {\n"+cl.Anchor+"\n}", 0)
-		if err != nil || len(f.Decls) != 1 {
+		if err != nil {
+			// the header of a compound statement: same kind of statement with the same init statement
+			// ("if err, ok := arg.(error); ..."), unique and not named by another anchor
+			if f2, err2 := parser.ParseFile(token.NewFileSet(), "", "package p\nfunc _() {\n"+cl.Anchor+" {}\n}", 0); err2 == nil && len(f2.Decls) == 1 {
+				if fd, ok := f2.Decls[0].(*ast.FuncDecl); ok && fd.Body != nil && len(fd.Body.List) == 1 {
+					if k := e.initKey(fd.Body.List[0]); k != "" {
+						var cands []string
+						seen := map[string]bool{}
+						for _, t := range inits[k] {
+							if !seen[t] && !anchorTexts[t] && texts[t] == 1 {
+								seen[t] = true
+								cands = append(cands, t)
+							}
+						}
+						if len(cands) == 1 {
+							cl.Resolved = cands[0]
+							e.w.trustedNote(fmt.Sprintf("anchor drift in %s: the clause anchored at %q was attached to %q (same kind of statement, same init statement, unique)", e.short, cl.Anchor, cands[0]))
+						}
+					}
+				}
+			}
+			continue
+		}
+		if len(f.Decls) != 1 {
 			continue
 		}
 		fd, ok := f.Decls[0].(*ast.FuncDecl)
@@ -144,6 +171,25 @@ func (e *Env) resolveAnchors(body *ast.BlockStmt) {
 			}
 		}
 	}
+}
+
+// initKey identifies a compound statement by its kind and the text of its init statement ("" without one).
+func (e *Env) initKey(s ast.Node) string {
+	var init ast.Stmt
+	switch x := s.(type) {
+	case *ast.IfStmt:
+		init = x.Init
+	case *ast.SwitchStmt:
+		init = x.Init
+	case *ast.TypeSwitchStmt:
+		init = x.Init
+	}
+	if init == nil {
+		return ""
+	}
+	var buf bytes.Buffer
+	_ = printer.Fprint(&buf, token.NewFileSet(), init)
+	return fmt.Sprintf("%T:%s", s, strings.Join(strings.Fields(buf.String()), " "))
 }
 
 // headCall names the callee of a statement that consists of one call ("" otherwise).
